@@ -337,7 +337,7 @@ func (g *evGen) writeOp(h int) evOp {
 func (g *evGen) template() {
 	r := g.c.R
 	last := func() int { return len(g.r.handles) - 1 }
-	switch r.Intn(12) {
+	switch r.Intn(13) {
 	case 0, 1, 2:
 		g.emit(evOp{Op: "swrite", Kind: gen.Pick(r, AllKinds), Dry: g.chance(20), OK: g.chance(75), W: g.wid(), F: g.faults(20)})
 	case 3, 4:
@@ -419,6 +419,37 @@ func (g *evGen) template() {
 			g.emit(g.writeOp(second))
 		}
 		g.emit(evOp{Op: gen.Pick(r, []string{"commit", "rollback"}), H: second, OK: g.chance(85)})
+	case 10:
+		// nested transactions (outside the calling discipline: correspondence only) and
+		// a lock outside any transaction
+		if g.chance(40) {
+			if g.emit(evOp{Op: "lock", H: 0, OK: g.chance(92)})[0] == "ok" {
+				lk := last()
+				g.emit(g.writeOp(lk))
+				if g.chance(30) {
+					g.emit(evOp{Op: gen.Pick(r, []string{"commit", "rollback"}), H: lk, OK: true})
+				}
+			}
+			return
+		}
+		if g.emit(evOp{Op: "begin", H: 0, OK: true})[0] != "ok" {
+			return
+		}
+		outer := last()
+		g.emit(g.writeOp(outer))
+		if g.emit(evOp{Op: "begin", H: outer, OK: g.chance(92)})[0] != "ok" {
+			g.emit(evOp{Op: "rollback", H: outer, OK: true})
+			return
+		}
+		inner := last()
+		for i, n := 0, 1+r.Intn(2); i < n; i++ {
+			g.emit(g.writeOp(inner))
+		}
+		g.emit(evOp{Op: gen.Pick(r, []string{"commit", "commit", "rollback"}), H: inner, OK: g.chance(85)})
+		if g.chance(50) {
+			g.emit(g.writeOp(outer))
+		}
+		g.emit(evOp{Op: gen.Pick(r, []string{"commit", "commit", "rollback"}), H: outer, OK: g.chance(85)})
 	default:
 		// one arbitrary raw call on an arbitrary handle (nested transactions,
 		// locks outside transactions, commits on lock handles, finished handles …)
